@@ -249,23 +249,20 @@ func lspPositionFromIdx(s string, idx int) lsp.Position {
 // Generates (index, lspPosition) pairs in s, stopping if f returns false.
 func walkString(s string, f func(i int, p lsp.Position) bool) {
 	var p lsp.Position
-	lastCR := false
 
 	for i, r := range s {
 		if !f(i, p) {
 			return
 		}
 		switch {
-		case r == '\r':
+		case r == '\r' && i+1 < len(s) && s[i+1] == '\n':
+			// First half of a \r\n sequence. The line break is counted at the
+			// \n, so that the position right after the sequence maps back to
+			// the index after it rather than into the middle of it.
+			p.Character++
+		case r == '\r' || r == '\n':
 			p.Line++
 			p.Character = 0
-		case r == '\n':
-			if lastCR {
-				// Ignore \n if it's part of a \r\n sequence
-			} else {
-				p.Line++
-				p.Character = 0
-			}
 		case r <= 0xFFFF:
 			// Encoded in UTF-16 with one unit
 			p.Character++
@@ -273,7 +270,6 @@ func walkString(s string, f func(i int, p lsp.Position) bool) {
 			// Encoded in UTF-16 with two units
 			p.Character += 2
 		}
-		lastCR = r == '\r'
 	}
 	f(len(s), p)
 }
